@@ -333,7 +333,13 @@ class Obj(Ty):
 
     def __init__(self, cls, **fields):
         self.cls = cls
-        self.fields = dict(fields)
+        self.fields = {}
+        self.optional = set()  # attributes that may be missing (AttributeError on read)
+        for k, t in fields.items():
+            if isinstance(t, tuple) and t[0] == "optional":
+                self.optional.add(k)
+                t = t[1]
+            self.fields[k] = t
 
     def key(self):
         return "obj:" + self.cls
